@@ -1,0 +1,28 @@
+//go:build verif
+
+package iam
+
+import (
+	"github.com/nuts-foundation/go-did/vc"
+	"github.com/nuts-foundation/nuts-node/vcr/pe"
+)
+
+// VerifNewPEXConsumer exposes newPEXConsumer (the verifier-side Presentation Exchange state of the token endpoints).
+func VerifNewPEXConsumer(requiredPresentationDefinitions pe.WalletOwnerMapping) *PEXConsumer {
+	return newPEXConsumer(requiredPresentationDefinitions)
+}
+
+// VerifFulfill exposes PEXConsumer.fulfill.
+func (v *PEXConsumer) VerifFulfill(submission pe.PresentationSubmission, envelope pe.Envelope) error {
+	return v.fulfill(submission, envelope)
+}
+
+// VerifCredentialMap exposes PEXConsumer.credentialMap.
+func (v *PEXConsumer) VerifCredentialMap() (map[string]vc.VerifiableCredential, error) {
+	return v.credentialMap()
+}
+
+// VerifResolveInputDescriptorValues exposes resolveInputDescriptorValues (feeds the introspection claims).
+func VerifResolveInputDescriptorValues(presentationDefinitions pe.WalletOwnerMapping, credentialMap map[string]vc.VerifiableCredential) (map[string]any, error) {
+	return resolveInputDescriptorValues(presentationDefinitions, credentialMap)
+}
